@@ -11,7 +11,7 @@ C = {
  "C02": ("generated builder histories; oracle: LE32 Length == emitted bytes and per-step delta(Length) == delta(bytes)",
          "Search over the same program space as C01 for all 22 kinds (FACS/RSDP length fields included); model-free oracle; one open known finding (CEDT RDPAS 16 vs 17).",
          "4 §C02", "Sdt writes into bytes 4..8 are moved away (C13 covers them)"),
- "C03": ("generated add sequences; oracle: independent specification-framing walker + count-field comparison",
+ "C03": ("generated add sequences (plus every entry serialised on its own); oracle: independent specification-framing walker + count-field comparison",
          "Search over add sequences of the 13 variable-body tables; the walker is written from the specifications' framing rules and never consults the crate; one open known finding (CEDT RDPAS).",
          "4 §C03", "the walker's per-type sizes are my transcription of the specifications (tables/walk.rs)"),
  "C04": ("differential against an independently written specification-layout encoder (refenc.rs), byte for byte",
@@ -43,13 +43,13 @@ C = {
  "C10": ("generated descriptors/templates; oracle: independent resource walker + per-field decoder against the caller's values",
          "All flag combinations of every descriptor kind enumerated; templates of 0..470 descriptors generated across the PkgLength and buffer-size width boundaries; the walker steps by the descriptors' own length fields.",
          "4 §C10", "descriptor layouts transcribed from ACPI 6.5 section 6.4 (aml/res.rs)"),
- "C14": ("differential across six sink implementations + double serialisation + raw-form comparison, over generated tables, entries and AML trees",
+ "C14": ("differential across six sink implementations + double serialisation + history independence (serialised between operations or not) + raw-form comparison, over generated tables, entries and AML trees",
          "Every generated object is serialised into the vector sink twice and into a byte-only sink, an all-methods logging sink, the checksum sink, the generic-table sink and the package-builder sink; as_bytes() of every add_structure-able type is compared with its serialised form.",
          "4 §C14", "none beyond the generators of C01-C06"),
  "C15": ("differential between alternative construction paths, exhaustive over body sizes 0..4200 and 2^20 +- 16, generated child lists",
          "Scope::raw vs Scope::new, PackageBuilder vs Package, String vs &'static str, usize vs u64: byte equality, every body size through the PkgLength width boundaries enumerated.",
          "4 §C15", "neither path is trusted; absolute correctness is C06/C07's"),
- "C18": ("directed boundary sweep of 33 narrowing sites (through the tables and on stand-alone entry objects) at maximum / maximum+1 / far beyond, in two build profiles (overflow checks off and on); oracle: must panic above the maximum, framing oracles of C03/C06 at the maximum",
+ "C18": ("directed boundary sweep of 33 narrowing sites (through the tables and on stand-alone entry objects) at maximum / maximum+1 / far beyond, plus objects re-serialised after a refused call (must be byte-identical), in two build profiles (overflow checks off and on); oracle: must panic above the maximum, framing oracles of C03/C06 at the maximum",
          "Every encoded count/length field with a caller-controlled source is driven to its field maximum (control: accepted and correctly framed) and beyond (must panic) in the shipping arithmetic profile and, via a second binary, in the overflow-checking profile.",
          "4 §C18", "sizes needing >= 4 GiB of data are out of reach; the site catalogue is DESIGN §C18's"),
 }
